@@ -3,8 +3,9 @@ ENGINES = [
  {"name": "xform", "path": "xform", "serves_properties": ["C14"], "kind_free_text": "go/packages source rewriter that inserts the seams into a scratch copy of /repo"},
 ]
 ENGINES.append({"name": "simos", "path": "harness/vsim/simos", "serves_properties": ["C18"], "kind_free_text": "fault- and crash-injecting file/process seam over a real directory: numbered decision points before, inside and after every os call of package main and pkg/cli; strace-based conformance layer on the real binary"})
+ENGINES.append({"name": "sealfault", "path": "harness/vdrvlearn", "serves_properties": ["C20"], "kind_free_text": "stored-value corruption enumerator and entropy-fault injector around learn.Encrypt/Decrypt/Seal/Unseal/Verify (real code, real RSA/AES), with generated question files for the verification clause"})
 NOTES = "Fix commits in /repo: see known_findings.json. Properties whose check is not built yet are listed under not_applicable with reason 'check under construction'."
-PENDING.update({p: "check under construction in this session (claimed in DESIGN.md; will move to checks once its driver is committed)" for p in ["C02", "C20"]})
+PENDING.update({p: "check under construction in this session (claimed in DESIGN.md; will move to checks once its driver is committed)" for p in ["C02"]})
 claim("C14", "fault_enumeration",
  "For every program of the workload the stop flag is raised inside every fault point of its run (each Yield, Sleep, Read poll and idle moment; exhaustively for runs up to the tier's limit, sampled beyond) and the interrupted run is compared with the uninterrupted one: result is 'stopped', nothing is evaluated and no effect happens after the raise (only the test summary), effects before it are a prefix. Probe programs with statically known trip/call counts decide 'yields at least once per iteration and call'. Sampling over programs, exhaustive over crash points of each sampled program.",
  "The platform raises Stopped only while it has control (Yield, Sleep, blocked Read, idle). SimPlatform is a stub of the browser; the event loop of pkg/wasm is mirrored by the driver at this level.",
@@ -28,3 +29,9 @@ claim("C18", "fault_enumeration",
  "A killed process loses nothing the kernel already accepted (no power-loss model). Process exit and os calls are reached through the simos seam in-process; the strace layer validates that picture on the real binary when ptrace is available.",
  "deterministic simulation with crash/errno/torn-write fault enumeration over the command's file-operation trace",
  "DESIGN.md §5.5", "simos")
+
+claim("C20", "fault_enumeration",
+ "For every sampled sealed value the single-byte damage space is executed completely (every bit flip, byte overwrites, every truncation, deletion, insertion, length-field and segment damage, base64 text damage incl. padding and whitespace) plus every wrong fixture key and garbage keys: Decrypt must return an error or the original, never another text, never panic. Round trips over answer pools (1 byte to 64 kB, any bytes) and key sizes; Seal/Unseal idempotence on real front matters; a seeded entropy source that fails or runs short must make Encrypt fail. Verification: generated question files (inline-code and really executed evy choices, sealed and unsealed) are verified for every subset of marked answers against every assignment of outputs: Verify()==nil iff marked == matching; corrupted sealed files must be rejected or give the uncorrupted verdict.",
+ "Pre-generated RSA fixture keys (crypto/rsa key generation cannot be made deterministic). The verification clause has no fault dimension of its own; it is enumerated in the fault-free configuration inside the same pipeline.",
+ "stored-value corruption enumeration and entropy-fault injection with a reject-or-original oracle; subset enumeration for verification",
+ "DESIGN.md §5.6", "sealfault")
